@@ -76,7 +76,8 @@ class BuiltinBroachingCodeGenerator(BroachingCodeGenerator):
 
     def produce_code(self, signature: Signature, closure_name: str) -> tuple[str, Mapping[str, object]]:
         builder = CodeBuilder()
-        namespace = BuiltinCascadeNamespace(occupied=signature.parameters.keys())
+        # the closure itself is a local variable of the closure maker, it must not shadow a constant
+        namespace = BuiltinCascadeNamespace(occupied={*signature.parameters.keys(), closure_name})
         state = self._create_state(namespace=namespace)
 
         namespace.add_outer_constant("_closure_signature", signature)
